@@ -536,7 +536,8 @@ fn is_changed_after_unmarking_chemistry(mathml: Element) -> bool {
             // debug!("After merge_element: -- parent{}", mml_to_string(&parent));
 
         } else if let Some(changed_value) = mathml.attribute_value(CHANGED_ATTR) {
-            if changed_value == ADDED_ATTR_VALUE {
+            // the leaves that get added are (invisible) operators -- another leaf can have the mark because it was lifted into an added mrow
+            if changed_value == ADDED_ATTR_VALUE && name(&mathml) == "mo" {
                 mathml.remove_from_parent();
                 return true;
             }
